@@ -137,6 +137,13 @@ func (e editor) clearOnDifferentChoiceCase(existing *Selection, want meta.Meta) 
 }
 
 func (e editor) clearChoiceCase(sel *Selection, c *meta.ChoiceCase) error {
+	if sel.Constraints != nil {
+		// what is stored for the case goes, whether a when lets it be seen right now or not
+		unguarded := *sel
+		unguarded.Constraints = NewConstraints(sel.Constraints)
+		unguarded.Constraints.removeConstraint("~when")
+		sel = &unguarded
+	}
 	i := newChoiceCaseIterator(sel, c)
 	m := i.nextMeta()
 	for m != nil {
